@@ -6,7 +6,9 @@ import LocustModel.Prim
   Mirrors  src/mem_store/partition.rs       Partition::{get_cols, evict, clone_column_handles}, ColumnHandle
            src/scheduler/disk_read_scheduler.rs  DiskReadScheduler::get_or_load
            src/disk_store/storage.rs         Storage::{load_column, partition_has_been_loaded}  (index into the catalogue)
-           src/scheduler/inner_locustdb.rs   flush_table_buffer (`try_get().as_ref().unwrap()`), compact / prepare_compact
+           src/scheduler/inner_locustdb.rs   flush_table_buffer, compact / prepare_compact
+           src/mem_store/table.rs            Table::batch (captures the new partition's columns BEFORE it is registered — fix 
+                                             of finding c10-fresh-partition-placeholder; `flushHandlesOld` keeps the old code)
   Columns are numbers.  A disk-backed database is modelled (`Storage`); with `NoopStorage` the catalogue questions
   are answered without indexing and nothing can be non-resident.
 -/
@@ -36,7 +38,14 @@ structure PState where
   cols : List (Nat × Handle)     -- Partition.cols
   fileCols : List Nat            -- the columns the partition really has (what its files contain)
   loadedFlag : Bool              -- SubpartitionMetadata.loaded
-  deriving Repr
+  deriving DecidableEq, Repr
+
+instance {α : Type} [DecidableEq α] : DecidableEq (Except Fault α) := fun a b =>
+  match a, b with
+  | .ok x, .ok y => if h : x = y then isTrue (by rw [h]) else isFalse (fun e => h (by injection e))
+  | .error x, .error y => if h : x = y then isTrue (by rw [h]) else isFalse (fun e => h (by injection e))
+  | .ok _, .error _ => isFalse (fun e => by cases e)
+  | .error _, .ok _ => isFalse (fun e => by cases e)
 
 def Phase.inTable : Phase → Bool
   | .fresh | .handlesRead | .swapped | .persisted => true
@@ -73,6 +82,11 @@ def getOrLoad (p : PState) (c : Nat) : Handle → Except Fault (PState × Bool)
         if c ∈ p.fileCols then .ok ({ p with cols := cols, loadedFlag := true }, true)
         else .ok ({ p with cols := setH c .empty cols, loadedFlag := true }, false)
 
+/-- `PartitionMetadata::subpartition_has_been_loaded`: `subpartitions_by_last_column.lower_bound(Included(c))` finds
+    nothing when `c` sorts after every column of the partition — the answer is then `true` without looking at the flag.
+    (One sub-partition is modelled; column numbers stand for names in their sort order.) -/
+def beyondLast (p : PState) (c : Nat) : Bool := p.fileCols.all (· < c)
+
 /-- `Partition::get_cols` for one column. -/
 def getCols (p : PState) (c : Nat) : Except Fault (PState × Bool) :=
   match lookup c p.cols with
@@ -80,14 +94,35 @@ def getCols (p : PState) (c : Nat) : Except Fault (PState × Bool) :=
   | none =>
       if p.ephemeral then getOrLoad { p with cols := setH c .empty p.cols } c .empty
       else if !p.phase.inCatalogue then .error .index          -- partition_has_been_loaded indexes the catalogue
-      else if p.loadedFlag then getOrLoad { p with cols := setH c .empty p.cols } c .empty
+      else if beyondLast p c || p.loadedFlag then getOrLoad { p with cols := setH c .empty p.cols } c .empty
       else getOrLoad { p with cols := setH c .nonresident p.cols } c .nonresident
 
-/-- flush_table_buffer: `clone_column_handles().map(|c| c.try_get().as_ref().unwrap().clone())`. -/
+/-- `Partition::get_cols` for a set of columns (one `query:cols(p)` step of a query / of compaction): the columns in
+    turn; the first fault ends the worker. -/
+def getColsMany (p : PState) : List Nat → Except Fault PState
+  | [] => .ok p
+  | c :: cs => match getCols p c with
+    | .ok (p', _) => getColsMany p' cs
+    | .error f => .error f
+
+/-- flush_table_buffer after `Table::batch`: the columns to persist were captured inside `Table::batch`, before the
+    partition became visible; nothing is read from the (shared, mutable) handle map any more. -/
 def flushHandles (p : PState) : Except Fault PState :=
+  if p.phase = .fresh then .ok { p with phase := .handlesRead } else .ok p
+
+/-- The columns `flush_table_buffer` hands to `subpartition()` / `persist_partitions`. -/
+def flushedCols (p : PState) : List Nat := p.fileCols
+
+/-- The code before the fix (kept for the regression example in Thm/C10 and the harness corpus):
+    `partition.clone_column_handles().map(|c| c.try_get().as_ref().unwrap().clone())` AFTER the partition was registered. -/
+def flushHandlesOld (p : PState) : Except Fault PState :=
   if p.phase = .fresh then
     if p.cols.all (fun kh => kh.2 = .resident) then .ok { p with phase := .handlesRead } else .error .unwrap
   else .ok p
+
+/-- A tempting smaller repair — skip handles without a column (`filter_map`) — would not fault but persist only these
+    columns: an evicted column of the fresh partition would silently be missing from its file. -/
+def flushedColsSkipping (p : PState) : List Nat := (p.cols.filter (fun kh => kh.2 = .resident)).map (·.1)
 
 /-- `Partition::evict` (reached through `Table::evict`, i.e. only while the partition is in the table map). -/
 def evict (p : PState) (c : Nat) : PState :=
